@@ -40,11 +40,19 @@ type tagged struct {
 	kind byte // 'n' PostEvent, 'b' PostEventBlocking
 }
 
-const bound = 3 * time.Second
+// bound is a FAILURE time-out only: every wait below ends on a definite event (a call returned, a
+// channel was closed, the goroutines are gone) and the bound is reached only when that event does
+// not happen; it is generous so that a slow or loaded machine does not turn into a verdict.
+const bound = 10 * time.Second
 
-// hangBound is the bound for the two schedules that are known to hang (F53, F13): they are stuck
-// states of the LTS (nothing is enabled), so waiting longer cannot change the outcome.
-const hangBound = 700 * time.Millisecond
+// hangBound was the short bound for the two schedules that used to hang (F53, F13: stuck states of
+// the LTS).  Both are repaired (round 3): they are expected to complete, so they get the same
+// generous failure time-out as everything else.
+const hangBound = bound
+
+// goneBound: how long to wait for the library's goroutines to be gone after a call has returned
+// (the wait ends as soon as they are gone).
+const goneBound = 5 * time.Second
 
 func main() {
 	if len(os.Args) > 1 && os.Args[1] == "-racechild" {
@@ -445,7 +453,7 @@ func postCase(seed uint64, posters, m, q, keys int) string {
 	case <-cdone:
 	case <-time.After(bound):
 	}
-	leak := waitGoroutines(base, time.Second)
+	leak := waitGoroutines(base, goneBound)
 	var sb strings.Builder
 	fmt.Fprintf(&sb, "posters=%v queries=%v close=%v panic=%q leak=%d plans=%s recv=%s", postersDone, queriesDone, closeOK, pmsg, leak, strings.Join(plans, ","), joinOr(recv))
 	if leak > 0 {
@@ -554,7 +562,7 @@ func suspendCase(seed uint64, posters, m, cycles, q int) string {
 	case <-cdone:
 	case <-time.After(bound):
 	}
-	leak := waitGoroutines(base, time.Second)
+	leak := waitGoroutines(base, goneBound)
 	out := fmt.Sprintf("%s posters=%v close=%v panic=%q leak=%d", res, pd, closeOK, pmsg, leak)
 	if leak > 0 {
 		out += " leaked=" + strings.ReplaceAll(leakedFuncs(), " ", "_")
@@ -644,6 +652,20 @@ func libAlive(baseP, baseI int, d time.Duration) bool {
 // With nocons the application never receives: with a small queue the input goroutine blocks in its
 // first post, the parser's channel fills up, and a Resume finds the previous input goroutine still
 // alive (round 3: F13/F53 repaired — Suspend and Close return all the same, Close ends everything).
+// waitBlockedPosting waits until some input goroutine (openTty.func1) is inside PostEventBlocking.
+func waitBlockedPosting(d time.Duration) bool {
+	deadline := time.Now().Add(d)
+	for {
+		if countIn(stackDump(), "(*Vaxis).openTty.func1", "(*Vaxis).PostEventBlocking") > 0 {
+			return true
+		}
+		if time.Now().After(deadline) {
+			return false
+		}
+		time.Sleep(500 * time.Microsecond)
+	}
+}
+
 func cyclesCase(seed uint64, ops string, gate, keys, q int, nocons bool) string {
 	dump := stackDump()
 	baseP, baseI := countIn(dump, "ansi.(*Parser).run", ""), countIn(dump, "(*Vaxis).openTty.func1", "")
@@ -671,7 +693,13 @@ func cyclesCase(seed uint64, ops string, gate, keys, q int, nocons bool) string 
 	}
 	t.InjectString(strings.Repeat("k", keys))
 	if nocons {
-		time.Sleep(3 * time.Millisecond)
+		// definite event, not elapsed time: the input goroutine is inside PostEventBlocking (the queue
+		// is full and nobody receives, so it stays there); the bound is a failure time-out only
+		if !waitBlockedPosting(bound) {
+			t.Console.Close()
+			libAlive(baseP, baseI, goneBound)
+			return "incomplete"
+		}
 	}
 	var obs []string
 	for _, op := range ops {
@@ -703,7 +731,13 @@ func cyclesCase(seed uint64, ops string, gate, keys, q int, nocons bool) string 
 			o += "hang"
 		}
 		if ok && pm == "" {
-			if libAlive(baseP, baseI, 300*time.Millisecond) {
+			// (without a consumer the input goroutine is blocked in a post by construction when Suspend
+			// returns: "alive" is the expected answer there and cannot become "done" by waiting)
+			d := goneBound
+			if nocons && op == 'S' {
+				d = 300 * time.Millisecond
+			}
+			if libAlive(baseP, baseI, d) {
 				o += ",alive"
 			} else {
 				o += ",done"
@@ -986,7 +1020,7 @@ func forcedCase(kind string, q, keys int) string {
 	default:
 		out = "unknown-kind"
 	}
-	if out == "ok" && libAlive(baseP, baseI, 300*time.Millisecond) {
+	if out == "ok" && libAlive(baseP, baseI, goneBound) {
 		out = "leak"
 	}
 	tr := c.snapshot()
@@ -1038,7 +1072,7 @@ func fullCloseCase(seed uint64, q, keys int) string {
 	if !closeOK {
 		extra = 1
 	}
-	leak := waitGoroutines(base+extra, time.Second)
+	leak := waitGoroutines(base+extra, goneBound)
 	return fmt.Sprintf("%s panic=%q leak=%d", res, pmsg, leak)
 }
 
@@ -1078,7 +1112,7 @@ func sigCloseCase(seed uint64, keys int) string {
 	case <-cdone:
 	case <-time.After(bound):
 	}
-	leak := waitGoroutines(base, 500*time.Millisecond)
+	leak := waitGoroutines(base, goneBound)
 	return fmt.Sprintf("%s leak=%d", res, leak)
 }
 
@@ -1134,7 +1168,7 @@ func dblCloseCase(seed uint64, n int) string {
 	case <-cdone:
 	case <-time.After(bound):
 	}
-	leak := waitGoroutines(base, 500*time.Millisecond)
+	leak := waitGoroutines(base, goneBound)
 	return fmt.Sprintf("close-%s leak=%d", res, leak)
 }
 
